@@ -43,7 +43,19 @@ class Hist:
 
     # ---- snapshots -------------------------------------------------------------------------------------------------
     def node_snap(self, n):
-        d = {"name": n.name, "inputs": list(n.inputs), "outputs": list(n.outputs), "hash": n.definition_hash,
+        # a nested-graph node seen THROUGH a derivation made now (before this snapshot reads anything from the node itself): renaming
+        # its first input / output must give the same object whenever it is done - before or after the receiver was used
+        probe = None
+        if hasattr(n, "map_config") and n.inputs:
+            try:
+                v = n.with_inputs(**{n.inputs[0]: "zz_probe_in"})
+                probe = [list(v.inputs), v.map_inputs_to_params({p: i for i, p in enumerate(v.inputs)})]
+                if n.outputs:
+                    w = n.with_outputs(**{n.outputs[0]: "zz_probe_out"})
+                    probe.append([list(w.outputs), w.map_outputs_from_original({o: i for i, o in enumerate(n.graph.outputs)})])
+            except Exception as e:  # noqa: BLE001
+                probe = type(e).__name__
+        d = {"derived_now": probe, "name": n.name, "inputs": list(n.inputs), "outputs": list(n.outputs), "hash": n.definition_hash,
              "defaults": {p: n.get_default_for(p) for p in n.inputs if n.has_default_for(p)},
              "types": {p: repr(n.get_input_type(p)) for p in n.inputs}}
         d["param_map"] = n.map_inputs_to_params({p: i for i, p in enumerate(n.inputs)})
@@ -97,9 +109,25 @@ class Hist:
             with warnings.catch_warnings():
                 warnings.simplefilter("ignore")
                 r = SyncRunner().run(g, inputs, max_iterations=30, error_handling="continue")
-            return [str(getattr(r.status, "value", r.status)), {k: repr(v) for k, v in r.values.items()}]
+            res = [str(getattr(r.status, "value", r.status)), {k: repr(v) for k, v in r.values.items()}]
         except Exception as e:  # noqa: BLE001
             return ["raised", type(e).__name__]
+        # ... and once more with a RUN-TIME selection (relatives - the graph this one was derived from, its with_entrypoint / bind
+        # copies - are run with the same selection: what one of them remembers per selection must not reach another)
+        outs = sorted(g.outputs)
+        if outs:
+            try:
+                with warnings.catch_warnings():
+                    warnings.simplefilter("ignore")
+                    r2 = SyncRunner().run(g, inputs, select=outs[0], max_iterations=30, error_handling="continue")
+                res.append([str(getattr(r2.status, "value", r2.status)), {k: repr(v) for k, v in r2.values.items()}])
+            except Exception as e:  # noqa: BLE001
+                res.append(["raised", type(e).__name__])
+            # the selected run is the full run restricted to that output - whatever relatives of this graph were run before
+            if res[0] == "completed" and outs[0] in res[1] and res[-1] != ["completed", {outs[0]: res[1][outs[0]]}]:
+                self.violations.append(f"run with select={outs[0]!r} gives {res[-1]}, the same call without select completes with {outs[0]}={res[1][outs[0]]} "
+                                       f"(entry points {g.entrypoints_config}; something remembered for a relative of this graph?)")
+        return res
 
     def cool(self, obj):
         """A 'cold' object is left as if nobody had looked at it: what the harness's own snapshot cached is dropped again, so the
